@@ -42,7 +42,8 @@ META.update({
         "text": "RollKernels.tla models the code's running accumulators (n, power sums, rank-weighted sum, shifted-subtraction "
                 "numerator) as a streaming machine and Stats.tla the from-scratch definitions in exact rationals; TLC checks "
                 "NoDrift, MomentsAgree and OutDef after every step of every history within the bound (BFS) and of random deep "
-                "histories (simulation)." + TWOWAY,
+                "histories (simulation); RollSumProof.tla proves the add -> emit -> remove protocol exact for EVERY length, "
+                "window and summand with the TLA+ proof system (what is emitted is the sum over exactly the window)." + TWOWAY,
         "note": NOTE + " Plain family on null-free series (DESIGN 5.7); skew/kurt bound by replay only.",
         "design": "DESIGN.md section 6 C01, section 4 RollKernels",
     },
